@@ -183,5 +183,9 @@ def neighbour_cases(tag, sessions):
                             continue
                     ops = own + (at + nb if first else nb + at)
                     cases.append({"cfg": {"sb": [2, 3, 0][L % 3] if L % 5 else 2, "rb": "", "style": 0, "tag": tag + "-fill"}, "ops": ops})
+                    if not first and L % 2 == 0:
+                        # the same sizes reached by REPLACING a one-byte value of the attribute (the in-place path of the header writer)
+                        ops = own + [{"op": "attr", "p": "/c", "n": "a", "v": "s1"}] + nb + at
+                        cases.append({"cfg": {"sb": 2, "rb": "", "style": 0, "tag": tag + "-fill-replace"}, "ops": ops})
     return cases
 
